@@ -9,6 +9,7 @@ import B3.Proofs.Final
 import B3.Proofs.GenK
 import B3.Model.C
 import B3.Proofs.OutputPlan
+import B3.Proofs.CStack
 namespace B3.Props.C07
 open B3 B3.Rs Hs St
 
@@ -120,6 +121,30 @@ theorem c_output_root_bytes_plan_is_model (K : Kern) (o : Spec.Node) (seek outLe
     (hs : seek < 2 ^ 64) (ho : outLen < 2 ^ 64) :
     ((Gen.C.output_root_plan seek outLen).map (Gen.C.Ev.bytes K o)).flatten = C.outputRootBytes K o seek outLen :=
   Proofs.plan_bytes K o seek outLen hs ho
+
+/-- **Indices into `cv_stack[(MAX_DEPTH+1)*32]`, tied to the source.** `hasher_merge_cv_stack`,
+`hasher_push_cv` and the stack walk of `blake3_hasher_finalize_seek` are regenerated from c/blake3.c on
+every run as the list of their accesses to `self->cv_stack` (byte offset as an exact integer, length),
+and the array size from c/blake3.h. With at most 55 entries on the stack, a chunk counter below 2^54
+(input below 2^64 bytes) and at least `popcount(chunk_counter)` entries (the lazy-merge invariant,
+`lazy_len_ge`), every access of `hasher_push_cv` lies inside the array, and the stack ends with
+`popcount + 1 ≤ 55` entries - so the bound is re-established for the next call. -/
+theorem c_cv_stack_push_in_bounds (len cc : Nat) (hl : len ≤ 55) (hc : cc < 2 ^ 54) (hge : St.popcount cc ≤ len)
+    (hp : cc ≠ 0 ∨ len = 0) :
+    (∀ a ∈ (Gen.C.hasher_push_cv len cc).2, a.inBounds) ∧ (Gen.C.hasher_push_cv len cc).1 = St.popcount cc + 1 ∧
+    (Gen.C.hasher_push_cv len cc).1 ≤ 55 :=
+  Proofs.c_push_cv_bounds len cc hl hc hge hp
+
+/-- the stack walk of `blake3_hasher_finalize_seek` reads only inside the array, in each of the three
+states the representation invariant allows (`rep_final_ok`): empty stack, input in the chunk state, or
+at least two entries -/
+theorem c_cv_stack_finalize_in_bounds (len cslen : Nat) (hl : len ≤ 55) (hok : len = 0 ∨ 0 < cslen ∨ 2 ≤ len) :
+    ∀ a ∈ Gen.C.finalize_seek_accesses len cslen, a.inBounds :=
+  Proofs.c_finalize_seek_bounds len cslen hl hok
+
+/-- non-vacuity and sharpness: merging a full stack of 55 entries reads the 64 bytes that end exactly
+at byte 1760 = the size of the array; one entry more would be out of bounds -/
+example : Gen.C.merge_cv_stack_loop 56 55 54 [] = (54, [.read 1696 64, .write 1696 32]) ∧ Gen.C.CV_STACK_BYTES = 1760 := by decide
 
 example : Gen.C.output_root_plan 63 200 = [.copy 0 (some 0) 63 1, .many 1 1 3, .copy 193 (some 4) 0 7] := by decide
 
